@@ -142,22 +142,22 @@ type Record struct {
 
 // Job is what the driver asks a worker to do.
 type Job struct {
-	Mode     string `json:"mode"` // search | replay
-	Tier     string `json:"tier"`
-	Seed     uint64 `json:"seed"`
-	From     int64  `json:"from"`
-	To       int64  `json:"to"`
-	Out      string `json:"out"`
-	File     string `json:"file,omitempty"` // replay
-	DetFrom  int64  `json:"det_from"`       // runs in [DetFrom,DetTo) report their hash
-	DetTo    int64  `json:"det_to"`
-	Deadline int64  `json:"deadline_s"` // soft real-time budget for the range
-	RecordAll bool    `json:"record_all,omitempty"` // emit a full record for every run (race confirmation)
-	Repeat    int     `json:"repeat,omitempty"`     // execute every run this many extra times (the race detector's shadow memory is lossy)
-	NoRecords bool    `json:"no_records,omitempty"` // count violations but neither record nor minimise them
-	Reverse  bool     `json:"reverse,omitempty"` // run the range backwards (history-independence probe)
-	Known    []string `json:"known,omitempty"` // signatures not worth minimising again
-	MaxViol  int    `json:"max_violation_records"`
+	Mode      string   `json:"mode"` // search | replay
+	Tier      string   `json:"tier"`
+	Seed      uint64   `json:"seed"`
+	From      int64    `json:"from"`
+	To        int64    `json:"to"`
+	Out       string   `json:"out"`
+	File      string   `json:"file,omitempty"` // replay
+	DetFrom   int64    `json:"det_from"`       // runs in [DetFrom,DetTo) report their hash
+	DetTo     int64    `json:"det_to"`
+	Deadline  int64    `json:"deadline_s"`           // soft real-time budget for the range
+	RecordAll bool     `json:"record_all,omitempty"` // emit a full record for every run (race confirmation)
+	Repeat    int      `json:"repeat,omitempty"`     // execute every run this many extra times (the race detector's shadow memory is lossy)
+	NoRecords bool     `json:"no_records,omitempty"` // count violations but neither record nor minimise them
+	Reverse   bool     `json:"reverse,omitempty"`    // run the range backwards (history-independence probe)
+	Known     []string `json:"known,omitempty"`      // signatures not worth minimising again
+	MaxViol   int      `json:"max_violation_records"`
 }
 
 type Summary struct {
